@@ -113,7 +113,13 @@ def regexes_of(cx, port, fd, depth=1):
                         if id(item[2]) not in seen_nodes:
                             seen_nodes.add(id(item[2]))
                             out.append(item)
-    return out
+    # one module-level pattern can be reached both by name and through a helper that applies it: report each (pattern, flag) once
+    uniq, seen_pf = [], set()
+    for item in out:
+        if (item[0], item[1]) not in seen_pf:
+            seen_pf.add((item[0], item[1]))
+            uniq.append(item)
+    return uniq
 
 
 def _pattern_value(e, env):
